@@ -56,6 +56,20 @@ Fixpoint pol_trace (h : list Z) (p : pol) (acc : list sx) : list sx :=
   | i :: t => let p' := pol_access p i in pol_trace t p' (Lx [Zx (pol_victim p'); sx_zs (pol_repr p')] :: acc)
   end.
 
+(* data cache histories: ops (0 nbits a counted) read | (1 nbits a v direct) write;
+   after every op: (result, penalty, directory+counters, lower memory) *)
+Fixpoint dcache_trace (ops : list sx) (d : dcache) (acc : list sx) : list sx :=
+  match ops with
+  | [] => rev acc
+  | op :: t =>
+      if dz (dnth op 0) =? 0 then
+        let '(r, d', p) := dc_read d (dz (dnth op 1)) (dz (dnth op 2)) (dbool (dnth op 3)) in
+        dcache_trace t d' (Lx [sx_res Zx r; Zx p; sx_dcache d'; sx_zmap_sorted (lower d')] :: acc)
+      else
+        let '(e, d', p) := dc_write d (dz (dnth op 1)) (dz (dnth op 2)) (dz (dnth op 3)) (dbool (dnth op 4)) in
+        dcache_trace t d' (Lx [sx_opt sx_err e; Zx p; sx_dcache d'; sx_zmap_sorted (lower d')] :: acc)
+  end.
+
 (* RISC-V display tables of a state *)
 Definition rv_tables (s : st) : sx :=
   Lx [ sx_list (fun r => sx_repr4 (n_bit_repr 32 (rget s r))) (zrange_from 0 32);
@@ -81,6 +95,11 @@ Definition dispatch (req : sx) : sx :=
     let c := if dz (dnth req 1) =? 0 then rv_memcfg else toy_memcfg (dz (dnth req 2)) in
     let '(rs, m) := flat_trace c (dl (dnth req 4)) (dpairs (dnth req 3)) [] in
     Lx [Lx rs; sx_zmap_sorted m; sx_zs (mkeys m)]
+  else if op =? 50 then
+    match dmemsys (dnth req 1) (dpairs (dnth req 2)) with
+    | MCache d => Lx (dcache_trace (dl (dnth req 3)) d [])
+    | MFlat _ => Lx []
+    end
   else if op =? 40 then
     let p := pol_init (dbool (dnth req 1)) (dz (dnth req 2)) in
     Lx (Lx [Zx (pol_victim p); sx_zs (pol_repr p)] :: pol_trace (dzs (dnth req 3)) p [])
